@@ -16,6 +16,7 @@ import PP.Proofs.Bits
 
 set_option linter.unusedSimpArgs false
 set_option linter.unusedVariables false
+set_option linter.unusedSectionVars false
 
 namespace PP.GenMsmLemmas
 open PP PP.Gen PP.GenArithLemmas
@@ -121,6 +122,370 @@ theorem precomp3_short (a : Aff F) (pre : List (Aff F)) (h : pre.length < 3) :
           Nat.one_lt_two, Nat.zero_lt_succ, Nat.succ_lt_succ_iff]
         cases (A.Jac.toAffine _ : Option (Aff F)) <;> rfl
 
+/-! ## `mul_precomp_3` -/
+
+theorem mod_and_small (y m : Nat) (hm : m < 2 ^ 64) : (y % 2 ^ 64) &&& m = y &&& m := by
+  apply Nat.eq_of_testBit_eq
+  intro i
+  rw [Nat.testBit_and, Nat.testBit_and, Nat.testBit_mod_two_pow]
+  by_cases hi : i < 64
+  · simp [hi]
+  · have : m.testBit i = false :=
+      Nat.testBit_lt_two_pow (Nat.lt_of_lt_of_le hm (Nat.pow_le_pow_right (by decide) (by omega)))
+    simp [this]
+
+theorem mulPrecomp3_loop (T : List (Jac F)) (b0 b1 b2 b3 : Nat)
+    (f : Nat × Jac F → Nat → Option (Nat × Jac F))
+    (hf : ∀ st i, f st i = match T[nibbleAt b0 b1 b2 b3 i]? with
+      | none => none
+      | some e => some (nibbleAt b0 b1 b2 b3 i, st.2.double.add e)) :
+    ∀ n nib res o, M.forIn (List.range' 0 n).reverse (nib, res) f = o →
+      o.map Prod.snd = mulPrecomp3Loop T.toArray b0 b1 b2 b3 n res := by
+  intro n
+  induction n with
+  | zero => intro nib res o h; subst h; rfl
+  | succ n ih =>
+    intro nib res o h
+    rw [List.range'_concat, List.reverse_append, List.reverse_singleton, List.singleton_append, forIn_cons, hf] at h
+    rw [mulPrecomp3Loop]
+    simp only [List.getElem?_toArray, Nat.one_mul, Nat.zero_add] at h ⊢
+    cases hT : T[nibbleAt b0 b1 b2 b3 n]? with
+    | none => rw [hT] at h; subst h; rfl
+    | some e => rw [hT] at h; exact ih _ _ _ h
+
+theorem nibbleAt_def (b0 b1 b2 b3 i : Nat) : (((b3 >>> i) <<< 3) &&& 8) ||| (((b2 >>> i) <<< 2) &&& 4) ||| (((b1 >>> i) <<< 1) &&& 2)
+    ||| ((b0 >>> i) &&& 1) = nibbleAt b0 b1 b2 b3 i := rfl
+theorem nibbleTop_def (b0 b1 b2 b3 : Nat) :
+    ((b3 >>> 60) &&& 8) ||| ((b2 >>> 61) &&& 4) ||| ((b1 >>> 62) &&& 2) ||| ((b0 >>> 63) &&& 1) = nibbleTop b0 b1 b2 b3 := rfl
+
+theorem mulPrecomp3_core (T : List (Jac F)) (b0 b1 b2 b3 n : Nat)
+    (f : Nat × Jac F → Nat → Option (Nat × Jac F))
+    (hf : ∀ st i, f st i = match T[nibbleAt b0 b1 b2 b3 i]? with
+      | none => none
+      | some e => some (nibbleAt b0 b1 b2 b3 i, st.2.double.add e)) :
+    (match T[nibbleTop b0 b1 b2 b3]? with
+      | none => none
+      | some t15 =>
+        match M.forIn (List.range' 0 n).reverse (nibbleTop b0 b1 b2 b3, t15) f with
+        | none => none
+        | some (_, res) => some res)
+      = (T[nibbleTop b0 b1 b2 b3]?).bind (fun r => mulPrecomp3Loop T.toArray b0 b1 b2 b3 n r) := by
+  cases T[nibbleTop b0 b1 b2 b3]? with
+  | none => rfl
+  | some t15 =>
+    rw [Option.bind_some]
+    dsimp only
+    cases hfor : M.forIn (List.range' 0 n).reverse (nibbleTop b0 b1 b2 b3, t15) f with
+    | none => exact mulPrecomp3_loop T _ _ _ _ f hf n _ _ _ hfor
+    | some p =>
+      obtain ⟨nib', r⟩ := p
+      exact mulPrecomp3_loop T _ _ _ _ f hf n _ _ _ hfor
+
+/-- the 16-entry table of `mul_precomp_3` -/
+def tbl16 (a p0 p1 p2 : Aff F) : List (Jac F) :=
+  [Jac.zero, a.toJac, p0.toJac, p0.toJac.addMixed a, p1.toJac, p1.toJac.addMixed a, p0.toJac.addMixed p1,
+    (p0.toJac.addMixed p1).addMixed a, p2.toJac, a.toJac.addMixed p2, p0.toJac.addMixed p2,
+    (p0.toJac.addMixed a).addMixed p2, p1.toJac.addMixed p2, (p1.toJac.addMixed a).addMixed p2,
+    (p0.toJac.addMixed p1).addMixed p2, ((p0.toJac.addMixed p1).addMixed a).addMixed p2]
+
+theorem tbl16_eq (a p0 p1 p2 : Aff F) : [Jac.zero, a.toJac, p0.toJac, p0.toJac.addMixed a, p1.toJac, p1.toJac.addMixed a, p0.toJac.addMixed p1,
+    (p0.toJac.addMixed p1).addMixed a, p2.toJac, a.toJac.addMixed p2, p0.toJac.addMixed p2,
+    (p0.toJac.addMixed a).addMixed p2, p1.toJac.addMixed p2, (p1.toJac.addMixed a).addMixed p2,
+    (p0.toJac.addMixed p1).addMixed p2, ((p0.toJac.addMixed p1).addMixed a).addMixed p2] = tbl16 a p0 p1 p2 := rfl
+
+theorem precomp3Table_some (a : Aff F) (pre : List (Aff F)) {p0 p1 p2 : Aff F} (h0 : pre[0]? = some p0)
+    (h1 : pre[1]? = some p1) (h2 : pre[2]? = some p2) :
+    a.precomp3Table pre = some (tbl16 a p0 p1 p2).toArray := by
+  unfold Aff.precomp3Table
+  rw [h0, h1, h2]
+  simp only [Option.pure_def, Option.bind_eq_bind, Option.bind_some, tbl16]
+  simp
+
+theorem mulPrecomp3_eq (a : Aff F) (k : Nat) (pre : List (Aff F)) :
+    M.Aff.mulPrecomp3 a k pre = a.mulPrecomp3 k pre := by
+  unfold M.Aff.mulPrecomp3
+  simp only [Aff_toJac_eq, Jac_double_eq, Jac_zero_eq, Jac_addMixed_eq, Jac_add_eq]
+  cases h0 : pre[0]? with
+  | none => simp only [Aff.mulPrecomp3, Aff.precomp3Table, h0]; rfl
+  | some p0 =>
+    simp only [List.nil_append, List.cons_append, List.getElem?_cons_succ, List.getElem?_cons_zero,
+      List.set_cons_succ, List.set_cons_zero]
+    cases h1 : pre[1]? with
+    | none => simp only [Aff.mulPrecomp3, Aff.precomp3Table, h0, h1]; rfl
+    | some p1 =>
+      simp only [List.nil_append, List.cons_append, List.getElem?_cons_succ, List.getElem?_cons_zero,
+        List.set_cons_succ, List.set_cons_zero]
+      cases h2 : pre[2]? with
+      | none => simp only [Aff.mulPrecomp3, Aff.precomp3Table, h0, h1, h2]; rfl
+      | some p2 =>
+        have hr : List.range' 9 7 = [9, 10, 11, 12, 13, 14, 15] := rfl
+        simp only [List.nil_append, List.cons_append, List.getElem?_cons_succ, List.getElem?_cons_zero,
+          List.set_cons_succ, List.set_cons_zero, hr, forIn_cons, forIn_nil, M.usub, Nat.reduceLeDiff,
+          Nat.reduceSub, ↓reduceIte, tbl16_eq]
+        simp only [getD_limbsOf4 k 0 (by decide), getD_limbsOf4 k 1 (by decide), getD_limbsOf4 k 2 (by decide),
+          getD_limbsOf4 k 3 (by decide), mod_and_small _ 8 (by decide), mod_and_small _ 4 (by decide),
+          mod_and_small _ 2 (by decide)]
+        rw [Aff.mulPrecomp3, precomp3Table_some a pre h0 h1 h2]
+        simp only [Option.pure_def, Option.bind_eq_bind, Option.bind_some, List.getElem?_toArray]
+        simp only [nibbleAt_def, nibbleTop_def]
+        refine mulPrecomp3_core (tbl16 a p0 p1 p2) (limb k 0) (limb k 1) (limb k 2) (limb k 3) 63 _ ?_
+        intro st i; rfl
+
+/-! ## `mul_precomp_256` -/
+
+theorem byteAt_def (b0 b1 b2 b3 i : Nat) :
+    ((b3 >>> (i + 25)) &&& 128) ||| (((b3 >>> i) <<< 6) &&& 64) |||
+    ((b2 >>> (i + 27)) &&& 32) ||| (((b2 >>> i) <<< 4) &&& 16) |||
+    ((b1 >>> (i + 29)) &&& 8) ||| (((b1 >>> i) <<< 2) &&& 4) |||
+    ((b0 >>> (i + 31)) &&& 2) ||| ((b0 >>> i) &&& 1) = byteAt b0 b1 b2 b3 i := rfl
+
+theorem byteTop_def (b0 b1 b2 b3 : Nat) :
+    ((b3 >>> 56) &&& 128) ||| ((b3 >>> 25) &&& 64) ||| ((b2 >>> 58) &&& 32) ||| ((b2 >>> 27) &&& 16) |||
+    ((b1 >>> 60) &&& 8) ||| ((b1 >>> 29) &&& 4) ||| ((b0 >>> 62) &&& 2) ||| ((b0 >>> 31) &&& 1)
+      = byteTop b0 b1 b2 b3 := rfl
+
+theorem mulPrecomp256_loop (P : List (Aff F)) (b0 b1 b2 b3 : Nat)
+    (f : Nat × Jac F → Nat → Option (Nat × Jac F))
+    (hf : ∀ st i, f st i = match P[byteAt b0 b1 b2 b3 i]? with
+      | none => none
+      | some e => some (byteAt b0 b1 b2 b3 i, st.2.double.addMixed e)) :
+    ∀ n byte res o, M.forIn (List.range' 0 n).reverse (byte, res) f = o →
+      o.map Prod.snd = mulPrecomp256Loop P.toArray b0 b1 b2 b3 n res := by
+  intro n
+  induction n with
+  | zero => intro byte res o h; subst h; rfl
+  | succ n ih =>
+    intro byte res o h
+    rw [List.range'_concat, List.reverse_append, List.reverse_singleton, List.singleton_append, forIn_cons, hf] at h
+    rw [mulPrecomp256Loop]
+    simp only [List.getElem?_toArray, Nat.one_mul, Nat.zero_add] at h ⊢
+    cases hT : P[byteAt b0 b1 b2 b3 n]? with
+    | none => rw [hT] at h; subst h; rfl
+    | some e => rw [hT] at h; exact ih _ _ _ h
+
+theorem mulPrecomp256_core (P : List (Aff F)) (b0 b1 b2 b3 n : Nat)
+    (f : Nat × Jac F → Nat → Option (Nat × Jac F))
+    (hf : ∀ st i, f st i = match P[byteAt b0 b1 b2 b3 i]? with
+      | none => none
+      | some e => some (byteAt b0 b1 b2 b3 i, st.2.double.addMixed e)) :
+    (match P[byteTop b0 b1 b2 b3]? with
+      | none => none
+      | some t1 =>
+        match M.forIn (List.range' 0 n).reverse (byteTop b0 b1 b2 b3, t1.toJac) f with
+        | none => none
+        | some (_, res) => some res)
+      = (P[byteTop b0 b1 b2 b3]?).bind (fun e => mulPrecomp256Loop P.toArray b0 b1 b2 b3 n e.toJac) := by
+  cases P[byteTop b0 b1 b2 b3]? with
+  | none => rfl
+  | some t1 =>
+    rw [Option.bind_some]
+    dsimp only
+    cases hfor : M.forIn (List.range' 0 n).reverse (byteTop b0 b1 b2 b3, t1.toJac) f with
+    | none => exact mulPrecomp256_loop P _ _ _ _ f hf n _ _ _ hfor
+    | some p =>
+      obtain ⟨byte', r⟩ := p
+      exact mulPrecomp256_loop P _ _ _ _ f hf n _ _ _ hfor
+
+theorem mulPrecomp256_eq (a : Aff F) (k : Nat) (pre : List (Aff F)) :
+    M.Aff.mulPrecomp256 a k pre = a.mulPrecomp256 k pre.toArray := by
+  unfold M.Aff.mulPrecomp256 Aff.mulPrecomp256
+  simp only [Aff_toJac_eq, Jac_double_eq, Jac_addMixed_eq]
+  simp only [getD_limbsOf4 k 0 (by decide), getD_limbsOf4 k 1 (by decide), getD_limbsOf4 k 2 (by decide),
+    getD_limbsOf4 k 3 (by decide), mod_and_small _ 64 (by decide), mod_and_small _ 16 (by decide),
+    mod_and_small _ 4 (by decide), byteAt_def, byteTop_def]
+  simp only [Option.pure_def, Option.bind_eq_bind, List.getElem?_toArray]
+  refine mulPrecomp256_core pre (limb k 0) (limb k 1) (limb k 2) (limb k 3) 31 _ ?_
+  intro st i; rfl
+
+/-! ## `sum_of_products_precomp_256` -/
+
+theorem sopInner_loop (P : List (Aff F)) (i : Nat) (ks : List Nat)
+    (g : Jac F → Nat → Option (Jac F))
+    (hg : ∀ res j, g res j = match ks[j]? with
+      | none => none
+      | some kj =>
+        match P[(j <<< 8) + byteAt (limb kj 0) (limb kj 1) (limb kj 2) (limb kj 3) i]? with
+        | none => none
+        | some e => some (res.addMixed e)) :
+    ∀ m j0 res, j0 + m ≤ ks.length →
+      M.forIn (List.range' j0 m) res g = sopPrecompInner P.toArray i ((ks.drop j0).take m) j0 res := by
+  intro m
+  induction m with
+  | zero => intro j0 res _; rfl
+  | succ m ih =>
+    intro j0 res h
+    have hj : j0 < ks.length := by omega
+    rw [List.range'_succ, forIn_cons, hg, List.getElem?_eq_getElem hj, List.drop_eq_getElem_cons hj,
+      List.take_succ_cons, sopPrecompInner]
+    simp only [List.getElem?_toArray, Option.bind_eq_bind]
+    cases P[(j0 <<< 8) + byteAt (limb ks[j0] 0) (limb ks[j0] 1) (limb ks[j0] 2) (limb ks[j0] 3) i]? with
+    | none => rfl
+    | some e => exact ih (j0 + 1) _ (by omega)
+
+theorem sopInner_core (P : List (Aff F)) (i n : Nat) (ks : List Nat) (hn : n ≤ ks.length) (res : Jac F)
+    (g : Jac F → Nat → Option (Jac F))
+    (hg : ∀ res j, g res j = match ks[j]? with
+      | none => none
+      | some kj =>
+        match P[(j <<< 8) + byteAt (limb kj 0) (limb kj 1) (limb kj 2) (limb kj 3) i]? with
+        | none => none
+        | some e => some (res.addMixed e)) :
+    (match M.forIn (List.range' 0 n) res g with
+      | none => none
+      | some r => some r) = sopPrecompInner P.toArray i (ks.take n) 0 res := by
+  rw [sopInner_loop P i ks g hg n 0 res (by omega), List.drop_zero]
+  cases sopPrecompInner P.toArray i (ks.take n) 0 res <;> rfl
+
+theorem sopOuter_core (P : List (Aff F)) (K : List Nat) (f : Jac F → Nat → Option (Jac F))
+    (hf : ∀ res i, f res i = sopPrecompInner P.toArray i K 0 res.double) :
+    ∀ m res, (match M.forIn (List.range' 0 m).reverse res f with
+      | none => none
+      | some r => some r) = sopPrecompOuter P.toArray K m res := by
+  have key : ∀ m res, M.forIn (List.range' 0 m).reverse res f = sopPrecompOuter P.toArray K m res := by
+    intro m
+    induction m with
+    | zero => intro res; rfl
+    | succ m ih =>
+      intro res
+      rw [List.range'_concat, List.reverse_append, List.reverse_singleton, List.singleton_append, forIn_cons, hf,
+        sopPrecompOuter]
+      simp only [Nat.one_mul, Nat.zero_add, Option.bind_eq_bind]
+      cases sopPrecompInner P.toArray m K 0 res.double with
+      | none => rfl
+      | some r => exact ih r
+  intro m res
+  rw [key]
+  cases sopPrecompOuter P.toArray K m res <;> rfl
+
+theorem sumOfProductsPrecomp256_eq (points : List (Aff F)) (ks : List Nat) (pre : List (Aff F)) :
+    M.Aff.sumOfProductsPrecomp256 points (ks.map (limbsOf 4)) pre
+      = sumOfProductsPrecomp256 points ks pre.toArray := by
+  unfold M.Aff.sumOfProductsPrecomp256 sumOfProductsPrecomp256
+  simp only [Jac_zero_eq, Jac_double_eq, Jac_addMixed_eq, List.length_map]
+  have hmin : (if points.length < ks.length then points.length else ks.length) = min points.length ks.length := by
+    split <;> omega
+  rw [hmin]
+  refine sopOuter_core pre _ _ ?_ 32 _
+  intro res i
+  refine sopInner_core pre i _ ks (Nat.min_le_right _ _) _ _ ?_
+  intro res j
+  rw [List.getElem?_map]
+  cases ks[j]? with
+  | none => rfl
+  | some kj =>
+    simp only [Option.map_some, getD_limbsOf4 kj 0 (by decide), getD_limbsOf4 kj 1 (by decide),
+      getD_limbsOf4 kj 2 (by decide), getD_limbsOf4 kj 3 (by decide), mod_and_small _ 64 (by decide),
+      mod_and_small _ 16 (by decide), mod_and_small _ 4 (by decide), byteAt_def]
+    rfl
+
 end
+
+/-! ## `find_pippinger_window` -/
+
+theorem fpw_core (B : List (Nat × Nat)) (n : Nat) (f : Nat → Option (Option Nat))
+    (hf : ∀ i, f i = match B[i]? with
+      | none => none
+      | some t1 =>
+        if t1.1 > n then
+          match M.usub i 1 with
+          | none => none
+          | some t2 =>
+            match B[t2]? with
+            | none => none
+            | some t3 => some (some t3.2)
+        else some none) :
+    ∀ m j prev, 1 ≤ j → j + m = B.length → B[j - 1]? = some prev →
+      (match M.forRet (List.range' j m) f with
+        | none => none
+        | some (some ret) => some ret
+        | some none =>
+          match M.usub B.length 1 with
+          | none => none
+          | some t4 =>
+            match B[t4]? with
+            | none => none
+            | some t5 => some t5.2) = some (findPippingerWindowAux n (B.drop j) prev.2) := by
+  intro m
+  induction m with
+  | zero =>
+    intro j prev hj hlen hprev
+    have : j = B.length := by omega
+    subst this
+    simp only [List.range'_zero, M.forRet, usub_of_le hj, hprev, List.drop_length, findPippingerWindowAux]
+  | succ m ih =>
+    intro j prev hj hlen hprev
+    have hjl : j < B.length := by omega
+    rw [List.range'_succ, M.forRet, hf, List.getElem?_eq_getElem hjl, List.drop_eq_getElem_cons hjl]
+    generalize hB : B[j] = bw
+    obtain ⟨b, w⟩ := bw
+    simp only [findPippingerWindowAux]
+    by_cases hb : b > n
+    · simp only [hb, if_true, usub_of_le hj, hprev]
+    · simp only [hb, if_false]
+      exact ih (j + 1) (b, w) (by omega) (by omega) (by rw [Nat.add_sub_cancel, List.getElem?_eq_getElem hjl, hB])
+
+theorem findPippingerWindow_eq (n : Nat) : M.findPippingerWindow n = some (findPippingerWindow n) := by
+  unfold M.findPippingerWindow
+  exact fpw_core Gen.PIPPINGER_BOUNDARIES n _ (fun i => rfl) 15 1 (1, 1) (by decide) rfl rfl
+/-! ## window recommendations (ec/mod.rs, ec/g1.rs, ec/g2.rs) -/
+
+theorem num_bits_limbsOf (k : Nat) :
+    D.FrRepr.num_bits (limbsOf 4 k) = if k % 2 ^ 256 = 0 then 0 else (k % 2 ^ 256).log2 + 1 := by
+  rw [PP.GenDerive.FrRepr_num_bits _ (Limbs.limbsOf_length 4 k), Limbs.numBits_eq (Limbs.limbsOf_ok 4 k),
+    Limbs.limbsToNat_limbsOf]
+
+theorem G1_recScalar_eq (k : Nat) :
+    M.G1.empiricalRecommendedWnafForScalar (limbsOf 4 k)
+      = recommendForScalar G1_WNAF_SCALAR_LADDER G1_WNAF_SCALAR_DEFAULT (k % 2 ^ 256) := by
+  unfold M.G1.empiricalRecommendedWnafForScalar recommendForScalar G1_WNAF_SCALAR_LADDER G1_WNAF_SCALAR_DEFAULT
+  rw [num_bits_limbsOf]
+  generalize (if k % 2 ^ 256 = 0 then 0 else (k % 2 ^ 256).log2 + 1) = nb
+  simp only [List.find?_cons, List.find?_nil, ge_iff_le]
+  by_cases h1 : 130 ≤ nb
+  · simp [h1]
+  · by_cases h2 : 34 ≤ nb
+    · simp [h1, h2]
+    · simp [h1, h2]
+
+theorem G2_recScalar_eq (k : Nat) :
+    M.G2.empiricalRecommendedWnafForScalar (limbsOf 4 k)
+      = recommendForScalar G2_WNAF_SCALAR_LADDER G2_WNAF_SCALAR_DEFAULT (k % 2 ^ 256) := by
+  unfold M.G2.empiricalRecommendedWnafForScalar recommendForScalar G2_WNAF_SCALAR_LADDER G2_WNAF_SCALAR_DEFAULT
+  rw [num_bits_limbsOf]
+  generalize (if k % 2 ^ 256 = 0 then 0 else (k % 2 ^ 256).log2 + 1) = nb
+  simp only [List.find?_cons, List.find?_nil, ge_iff_le]
+  by_cases h1 : 103 ≤ nb
+  · simp [h1]
+  · by_cases h2 : 37 ≤ nb
+    · simp [h1, h2]
+    · simp [h1, h2]
+
+theorem forBrkP_takeWhile (n : Nat) (f : Nat → Nat → Nat × Bool)
+    (hf : ∀ s r, f s r = if n > r then (s + 1, false) else (s, true)) :
+    ∀ (L : List Nat) (s : Nat), M.forBrkP L s f = s + (L.takeWhile (fun r => n > r)).length := by
+  intro L
+  induction L with
+  | nil => intro s; rfl
+  | cons r L ih =>
+    intro s
+    rw [M.forBrkP, hf, List.takeWhile_cons]
+    by_cases h : n > r
+    · simp only [h, if_true, decide_true, List.length_cons, Bool.false_eq_true, if_false, ih]; omega
+    · simp [h]
+
+theorem G1_recNum_eq (n : Nat) :
+    M.G1.empiricalRecommendedWnafForNumScalars n
+      = recommendForNumScalars G1_WNAF_RECOMMENDATIONS G1_WNAF_RECOMMEND_BASE n := by
+  unfold M.G1.empiricalRecommendedWnafForNumScalars recommendForNumScalars
+  exact forBrkP_takeWhile n _ (fun s r => rfl) G1_WNAF_RECOMMENDATIONS G1_WNAF_RECOMMEND_BASE
+
+theorem G2_recNum_eq (n : Nat) :
+    M.G2.empiricalRecommendedWnafForNumScalars n
+      = recommendForNumScalars G2_WNAF_RECOMMENDATIONS G2_WNAF_RECOMMEND_BASE n := by
+  unfold M.G2.empiricalRecommendedWnafForNumScalars recommendForNumScalars
+  exact forBrkP_takeWhile n _ (fun s r => rfl) G2_WNAF_RECOMMENDATIONS G2_WNAF_RECOMMEND_BASE
+
+theorem Jac_recScalar_eq (emp : List Nat → Nat) (s : List Nat) : M.Jac.recommendedWnafForScalar emp s = emp s := rfl
+theorem Jac_recNum_eq (emp : Nat → Nat) (n : Nat) : M.Jac.recommendedWnafForNumScalars emp n = emp n := rfl
 
 end PP.GenMsmLemmas
